@@ -12,7 +12,7 @@ ASSUMPTIONS = ["time items strictly increasing", "survival table in [0,1]; diago
                "scipy kernels are functions of their arguments (uninterpreted, congruence only) in the time-shift harness",
                "scipy.linalg.solve_triangular satisfies its documented contract"]
 OUTSIDE = ["n beyond the bound", "IEEE rounding"]
-BOUNDS = {"quick": dict(n=[3, 4], labels=2, grids=dsm.GRIDS), "thorough": dict(n=[3, 4, 5], labels="2 and 2x2", grids=dsm.GRIDS)}
+BOUNDS = {"quick": dict(n=[3, 4], labels=2, grids=dsm.GRIDS, linearity_stock_driven="n=3 only"), "thorough": dict(n=[3, 4, 5], labels="2 and 2x2", grids=dsm.GRIDS, linearity_stock_driven="n=3 only")}
 OPTS = {"quick": dict(shadow_every=3, timeout_ms=20000, max_paths=400), "thorough": dict(shadow_every=5, timeout_ms=120000, max_paths=400)}
 KINDS = ["idsm", "sdsm_manual", "sdsm_lapack"]
 REAL = [("FixedLifetime", ["mean"]), ("NormalLifetime", ["mean", "std"]), ("FoldedNormalLifetime", ["mean", "std"]),
@@ -27,7 +27,8 @@ def configs(tier, seed):
             for n in ns:
                 for t0 in range(n - 1):
                     out.append(dict(h="causal", op=kind, key=f"causal/{kind}/grid={grid}/n={n}/t0={t0}", kind=kind, grid=grid, n=n, t0=t0, extra={"r": 2}))
-                out.append(dict(h="linear", op=kind, key=f"linear/{kind}/grid={grid}/n={n}", kind=kind, grid=grid, n=n, extra={"r": 2} if n < 5 else {}))
+                if kind == "idsm" or n <= 3:  # stock-driven superposition at n >= 4: nlsat does not finish every outflow row within the budget
+                    out.append(dict(h="linear", op=kind, key=f"linear/{kind}/grid={grid}/n={n}", kind=kind, grid=grid, n=n, extra={"r": 2} if n < 5 else {}))
                 for extra in ([{"r": 2}] if tier == "quick" else [{"r": 2}, {"r": 2, "p": 2}]):
                     if n >= 5 and len(extra) > 1:
                         continue
